@@ -30,6 +30,8 @@ pub fn strategy() -> BoxedStrategy<QuietCase> {
     cfg.cas_nonzero_pct = 35;
     cfg.probe_w = [2, 0, 3];
     cfg.max_keys = 3;
+    cfg.big_val_pct = 6;
+    cfg.limits = vec![1024, 2048];
     (sym::hist_strategy(&cfg), prop::collection::vec(prop::bool::weighted(0.45), 40))
         .prop_map(|(hist, mask)| QuietCase { hist, mask })
         .boxed()
@@ -197,6 +199,7 @@ pub fn run_case(case: &QuietCase) -> CaseReport {
 
 pub fn check(ctx: &mut Ctx) -> i32 {
     let acc = Accum::new();
+    ctx.hang_secs = Some(30);
     for path in regress_files("C19") {
         if let Ok(case) = load(&path) {
             if let Some(fi) = run_case(&case).fail {
